@@ -11,7 +11,7 @@ use serde_json::json;
 
 pub struct C17;
 
-const PRELUDE: &str = "v := 0\nxs := [1, 2, 3]\nob := {\"a\": 1}\nfn id(a) {\nreturn a\n}\nfn nf(a) {\nreturn a\n}\nfn sf_() {\nreturn undef_q\n}\nfn pr_() {\nprint(\"arg\")\nreturn 1\n}\n";
+const PRELUDE: &str = "v := 0\nxs := [1, 2, 3]\nob := {\"a\": 1}\nfn id(a) {\nreturn a\n}\nfn nf(a) {\nreturn a\n}\nfn sf_() {\nreturn undef_q\n}\nfn pr_() {\nprint(\"arg\")\nreturn 1\n}\nfn two_(a, b) {\nreturn a\n}\n";
 
 /// expressions whose evaluation fails
 pub const EXPR_ERRORS: &[(&str, &str)] = &[
@@ -36,6 +36,12 @@ pub const EXPR_ERRORS: &[(&str, &str)] = &[
     ("too few arguments", "nf()"),
     ("list range out of bounds", "xs[0:5]"),
     ("string range reversed", "\"ab\"[1:0]"),
+    ("list range reversed", "xs[2:1]"),
+    ("list range reversed at the end", "xs[3:2]"),
+    ("failing list item before a printing one", "[undef_l, pr_()]"),
+    ("failing argument before a printing one", "two_(undef_a, pr_())"),
+    ("failing object value before a printing one", "{\"a\": undef_o, \"b\": pr_()}"),
+    ("failing operand before a printing one", "undef_p + pr_()"),
     ("spread of a non-list", "[v..]"),
     ("spread of a non-object", "{v..}"),
     ("property name is not a string", "{5: 1}"),
@@ -294,6 +300,12 @@ pub fn judge(c: &Case, r: &RefOutcome, o: &CliOutcome) -> Verdict {
                     if lines.len() != 1 || in_fn.is_some() {
                         return viol("format", format!("{}: a lexical / syntax error is exactly one line: {:?}", c.meta, stderr));
                     }
+                    // an unexpected token is named by its own text
+                    if let Some(tok) = c.meta.strip_prefix("front-end error: unexpected token ") {
+                        if !msg.contains(tok) {
+                            return viol("internal-identifier", format!("{}: the message does not name the unexpected token {:?}: {:?}", c.meta, tok, first));
+                        }
+                    }
                 }
                 RefResult::Err(e) => {
                     if in_fn != e.func && !e.in_slot {
@@ -378,6 +390,19 @@ impl Check for C17 {
         for (fname, f) in FRONT_ERRORS {
             for pre in ["", "print(\"out1\")\n", "print(\"out1\")\n\n# c\nfn f() {\nreturn 1\n}\n"] {
                 push(format!("{}{}", pre, f), format!("front-end error: {}", fname), &mut cases);
+            }
+        }
+        // a syntax error at every kind of token: the diagnostic names the token by its text
+        for tok in [
+            "+", "-", "*", "/", "%", "==", "!=", "<", "<=", ">", ">=", "&&", "||", "=", ":=", "+=", "-=", "*=", "/=", "%=", ",", ".", ")", "[", "]", "{", "}", ":", "..", "->", "===", "!==",
+            "if", "else", "while", "for", "in", "fn", "return", "break", "continue", "null", "true", "false", "12", "\"s\"", "$\"s\"",
+        ] {
+            let shown = tok.trim_start_matches('$');
+            for pre in ["", "print(\"out1\")\n"] {
+                push(format!("{}fn {}\n", pre, tok), format!("front-end error: unexpected token {}", shown), &mut cases);
+                if !["[", "{", "-", "fn", "null", "true", "false", "12", "\"s\"", "$\"s\"", "."].contains(&tok) {
+                    push(format!("{}x := {}\n", pre, tok), format!("front-end error: unexpected token {}", shown), &mut cases);
+                }
             }
         }
         // successful scripts
